@@ -11,6 +11,7 @@ Not modelled, only exercised: the SQLite engine itself, interpreter hash randomi
 byte-identity run), garbage collection.
 -/
 import Paroxy.Proofs.Process
+import Paroxy.Proofs.ProcCollect
 import Paroxy.Proofs.Collect
 import Paroxy.Props.C11
 namespace Paroxy.Props.C03
@@ -179,6 +180,72 @@ theorem C03_collection {toTaxa : Name → List Label → List Taxon} {progs prog
     rw [this]
   unfold recordOf
   rw [hlab]
+
+/-- Non-vacuity of `C03_collection`: the two-program cycle `a.py ⇄ b.py`, and the same collection with a
+third program `c.py`; `a.py` names the same collected modules in both, so it has the same record. -/
+example : ∃ db db', makeDb (fun _ _ => []) C11.cycleProgs = .ok db ∧
+    makeDb (fun _ _ => [])
+      (C11.cycleProgs ++ [{ path := C11.exC, timestamp := [], source := [], labels := [] }]) = .ok db' ∧
+    get? db.programs C11.exA = get? db'.programs C11.exA := by
+  obtain ⟨db, h⟩ := C11.C11_total (toTaxa := fun _ _ => []) (progs := C11.cycleProgs)
+  obtain ⟨db', h'⟩ := C11.C11_total (toTaxa := fun _ _ => [])
+    (progs := C11.cycleProgs ++ [{ path := C11.exC, timestamp := [], source := [], labels := [] }])
+  refine ⟨db, db', h, h', ?_⟩
+  have := C03_collection h h' (by decide) (by decide) (p := C11.cycleProgs.head!) (by decide) (by decide)
+    (by
+      intro l hl m hs
+      have hl' : l = { name := C11.impB, spans := [(1, 1, [])] } := by
+        have : C11.cycleProgs.head!.labels = [{ name := C11.impB, spans := [(1, 1, [])] }] := rfl
+        rw [this] at hl
+        exact List.mem_singleton.mp hl
+      rw [hl'] at hs
+      have hm : m = [98] := by
+        have : searchImport? C11.impB = some [98] := by decide
+        rw [this] at hs
+        exact (Option.some.inj hs).symm
+      rw [hm]
+      decide)
+  exact this
+
+/-! ### The collection, with the process state threaded -/
+
+/-- **C03 (in a collection = alone).** `collectProc` threads ONE parser state over the sorted programs
+(`parseSeq`), relabels, threads ONE taxonomy state over the relabelled labels (`taxaSeq`) and assembles
+the database. For a program that names no collected module other than itself, the record it gets inside
+the collection is the record it gets when collected alone — whatever programs come before and after it.
+The labels of a program are not an input here: they are what the shared parser returns when its turn
+comes (`collectProc_eq` reduces the threaded run to `makeDb` on the labels each program gets alone). -/
+theorem C03_record_alone {items : List Item} {it : Item} {db db1 : Db}
+    (hn : (items.map (·.path)).Nodup) (hit : it ∈ items)
+    (h : collectProc E lit0 items = .ok db) (h1 : collectProc E lit0 [it] = .ok db1)
+    (hno : ∀ l ∈ labelsAlone E lit0 it, ∀ m, searchImport? l.name = some m →
+      replaceChar cDot cSlash m ++ sPy ∈ items.map (·.path) →
+        replaceChar cDot cSlash m ++ sPy = it.path) :
+    get? db.programs it.path = get? db1.programs it.path := by
+  have e := collectProc_eq hn h
+  have e1 := collectProc_eq (items := [it]) (by simp) h1
+  have hpaths : pathsOf (items.map (progAlone E lit0)) = items.map (·.path) := by
+    simp [pathsOf, progAlone, List.map_map, Function.comp_def]
+  have := C03_collection e e1 (by rw [hpaths]; exact hn) (by simp [pathsOf])
+    (p := progAlone E lit0 it) (List.mem_map.mpr ⟨it, hit, rfl⟩) (by simp)
+    (by
+      intro l hl m hs
+      have hl' : l ∈ labelsAlone E lit0 it := hl
+      simp only [internalOf, internalPaths, List.mem_append, List.map_cons,
+        List.map_nil, List.mem_cons, List.not_mem_nil, or_false]
+      have hp : (List.map (fun x => x.path) (List.map (progAlone E lit0) items)) = items.map (·.path) := hpaths
+      rw [hp]
+      constructor
+      · rintro (hm | hm)
+        · exact Or.inl (hno l hl' m hs hm)
+        · exact Or.inr hm
+      · rintro (hm | hm)
+        · left
+          have : (progAlone E lit0 it).path = it.path := rfl
+          rw [this] at hm
+          rw [hm]; exact List.mem_map.mpr ⟨it, hit, rfl⟩
+        · exact Or.inr hm)
+  exact this
 
 /-- Non-vacuity: the fresh state satisfies the invariant, so `C03_history` speaks about every real
 run; and a state with a leftover table does not (cf. `C03_leak_breaks`). -/
